@@ -55,6 +55,19 @@ def sym_query(flen, L, D, timeout=600, mem=6.0, real=False, tagbuf=False):
                  flen, ", tag scratch buffer scaled to 4 bytes (boundary arithmetic)" if tagbuf else "", L, D))
 
 
+def tmpl_query(tmpl, L, D, timeout=600, mem=6.0):
+    flen = len(tmpl)
+    return Q(name="tmpl_%s_L%d_D%d" % ("".join(c if c.isalnum() else {"%": "P", "{": "o", "}": "c", ":": "k", "?": "q"}.get(c, "_") for c in tmpl), L, D),
+             harness="C05_message.c", units=UNITS_SCALED,
+             defines=("FLEN=%d" % flen, "LMAX=%d" % L, "DMAX=%d" % D, "V_STR_CAP=%d" % (flen + 2), "SCALED_TEXTS=1", "REFCAP=%d" % (3 * flen + 12),
+                      'TEMPLATE="%s"' % tmpl),
+             unwind=max(flen, L) + 8,
+             unwindset=("snoopy_message_generateFromFormat.0:%d" % (flen // 3 + 2), "reference.3:%d" % (flen // 3 + 2),
+                        "strstr.0:%d" % (flen + 2), "strstr.1:%d" % (flen + 2)),
+             timeout=timeout, mem_gb=mem,
+             bounds="format template '%s' ('?' = arbitrary byte incl. NUL, other bytes fixed), error texts scaled; L=%d, D=%d" % (tmpl, L, D))
+
+
 def tag_query(tlen, L, D, timeout=600, mem=6.0):
     n = tlen + 12
     return Q(name="tag_%d_L%d_D%d" % (tlen, L, D), harness="C05_message.c", units=UNITS_SCALED,
@@ -78,4 +91,6 @@ def queries(ctx):
                 unwindset=("snoopy_message_generateFromFormat.0:3", "reference.3:3"), timeout=300, mem_gb=6,
                 bounds="formats '%{c}', 'c%{c', '%{f:c}', '%{a:c}' with c='q' (concrete: decides only that the REAL error-text literals are the documented ones); L=80, D=3"))
     qs.append(sym_query(8 if not thorough else 9, 6, 2, tagbuf=True))
+    qs.append(tmpl_query("%{?:??}?%{?:?}?", 8, 2))
+    qs.append(tmpl_query("?%{?}%{?}%{?:?}", 9, 1, mem=10))
     return qs
